@@ -138,7 +138,10 @@ type plList struct {
 	White bool
 	Rules []*vfRule
 	On    bool
-	url   string
+	// Gone: removed through remove_url (round 4); the entry stays so that
+	// the position of a list keeps being its URL's number in the model.
+	Gone bool
+	url  string
 }
 
 // syncLists recomputes Block / Allow from the enabled lists, in
@@ -146,7 +149,7 @@ type plList struct {
 func (c *plCfg) syncLists() {
 	c.Block, c.Allow = nil, nil
 	for _, l := range c.Lists {
-		if !l.On {
+		if !l.On || l.Gone {
 			continue
 		}
 		if l.White {
@@ -161,6 +164,9 @@ func (c *plCfg) syncLists() {
 func (c *plCfg) listsStateCoq() string {
 	var bl, al []string
 	for i, l := range c.Lists {
+		if l.Gone {
+			continue
+		}
 		f := vfApp("mkFList", vfN(uint64(i)), vfBool(l.On), vfRulesCoq(l.Rules))
 		if l.White {
 			al = append(al, f)
@@ -493,6 +499,15 @@ type plServer struct {
 	changes      int
 	askedAllowOn bool
 	wasOff       map[int]bool
+
+	// round 4, queue mode: the history is a Run/PipeCase.CQueue one; the
+	// engine initialisations queued by the handlers are NOT carried out
+	// after every change but by explicit steps of the history.  qBusy is the
+	// task taken from the channel by hand and not yet installed.
+	queueMode bool
+	qBusy     *filtering.VerifInitTask
+	qRow      int // handler calls since the last step of the loop
+	srcURL    string
 }
 
 // listsClasses: where in a history of list changes the query about to be run sits.
@@ -583,6 +598,10 @@ func (ps *plServer) setList(t *testing.T, i int, on bool) (rebuilt bool) {
 
 // recordAsk appends the query just run (and what was observed) to the history.
 func (ps *plServer) recordAsk(q *plQuery, o *plObs) {
+	ctor := "SAsk"
+	if ps.queueMode {
+		ctor = "QAsk"
+	}
 	var defs []vfDef
 	full := plCaseCoqShared("CPipe", ps, q, o, &defs)
 	// (CPipe cfg allow block sb par ss q ups up obs): the history step keeps ss q ups up obs
@@ -590,7 +609,7 @@ func (ps *plServer) recordAsk(q *plQuery, o *plObs) {
 	if len(parts) != 11 {
 		panic(fmt.Sprintf("case term has %d parts", len(parts)))
 	}
-	step := vfApp("SAsk", parts[6:]...)
+	step := vfApp(ctor, parts[6:]...)
 	for _, d := range defs {
 		if strings.Contains(step, d.Name) {
 			vfShare(&ps.histDefs, strings.TrimSuffix(d.Name, d.Name[strings.LastIndex(d.Name, "_"):]), d.Body)
@@ -633,6 +652,11 @@ func (ps *plServer) historyCase() vfCase {
 	c := ps.cfg
 	defs := append([]vfDef{}, ps.histDefs...)
 	coq := vfApp("CLists", ps.histCfg, ps.histInit, vfBytesList(c.SBHosts), vfBytesList(c.ParHosts), vfList("lstep", ps.histSteps))
+	if ps.queueMode {
+		coq = vfApp("CQueue", ps.histCfg, ps.histInit, vfBytesList(c.SBHosts), vfBytesList(c.ParHosts), vfList("qstep", ps.histSteps))
+		return vfCase{Coq: coq, Defs: defs, Nontrivial: ps.histAsks > 0, Classes: []string{"queue-history"}, MonitorOK: true,
+			Desc: map[string]any{"config": c.Desc(), "steps": ps.histDesc}}
+	}
 	return vfCase{Coq: coq, Defs: defs, Nontrivial: ps.histAsks > 0, Classes: []string{"lists-history"}, MonitorOK: true,
 		Desc: map[string]any{"config": c.Desc(), "steps": ps.histDesc}}
 }
@@ -919,6 +943,7 @@ func plNewServer(t *testing.T, c *plCfg) *plServer {
 			http.NotFound(w, r)
 		}))
 		t.Cleanup(src.Close)
+		ps.srcURL = src.URL
 		f.VerifStartNoLoop()
 		for i, l := range c.Lists {
 			l.url = fmt.Sprintf("%s/l/%d-%s.txt", src.URL, i, l.Name)
@@ -2058,4 +2083,325 @@ func plADMonitor(c *plCfg, o *plObs) (ok bool, msg string, classes []string) {
 		classes = append(classes, "dnssec-ad-delivered")
 	}
 	return true, "", classes
+}
+
+// ---- round 4: the queue of pending engine rebuilds between the web handlers
+// and the updates loop (Model/FilterQueue.v)
+//
+// A queue-mode server is a lists-mode server whose queued engine
+// initialisations are carried out only by explicit steps of the history:
+// qTake / qInstall are the two halves of updatesLoop's first arm run by hand
+// (between them the loop is "busy" and further handler calls arrive), qLoop
+// runs the real updatesLoop until it has served the queue.  ps.cfg always
+// holds the LATEST accepted configuration (custom rules, lists, flags); a
+// query is judged against it only when the queue is served (quiescent).
+
+func (ps *plServer) pending() int { return ps.s.dnsFilter.VerifPendingInits() }
+
+// quiescent: nothing queued and the loop holds no task.
+func (ps *plServer) quiescent() bool { return ps.qBusy == nil && ps.pending() == 0 }
+
+func (ps *plServer) qStep(coq, desc string) {
+	ps.histSteps = append(ps.histSteps, coq)
+	ps.histDesc = append(ps.histDesc, desc)
+}
+
+// qObserve records the number of queued tasks.
+func (ps *plServer) qObserve() {
+	ps.histSteps = append(ps.histSteps, vfApp("QPending", vfN(uint64(ps.pending()))))
+}
+
+// qPhase names the phase of the loop a handler call arrives in.
+func (ps *plServer) qPhase() string {
+	switch {
+	case ps.qBusy == nil && ps.pending() == 0:
+		return "queue-trigger-loop-idle"
+	case ps.qBusy != nil && ps.pending() == 0:
+		return "queue-trigger-loop-busy"
+	case ps.qBusy == nil:
+		return "queue-trigger-replaces-pending"
+	default:
+		return "queue-trigger-replaces-pending-loop-busy"
+	}
+}
+
+// qHandler calls a handler of the filtering module, records the call as a
+// model change and the number of queued tasks afterwards.  wantOK: the
+// status the handler must answer with (a refused call changes nothing).
+func (ps *plServer) qHandler(t *testing.T, out *vfOut, path string, body any, wantOK, restarts bool, change, desc string, apply func()) {
+	t.Helper()
+	phase := ps.qPhase()
+	code, text := ps.post(t, path, body)
+	if (code == http.StatusOK) != wantOK {
+		t.Fatalf("%s: %d %s", desc, code, text)
+	}
+	if apply != nil {
+		apply()
+	}
+	ps.cfg.syncLists()
+	ps.changes++
+	ps.qStep(vfApp("QOp", vfApp("HHandle", change)), desc)
+	ps.qObserve()
+	if restarts {
+		out.Class(phase)
+	} else {
+		out.Class("queue-handler-without-restart")
+	}
+	ps.qRow++
+	if ps.qRow >= 3 {
+		out.Class("queue-several-handlers-in-a-row")
+	}
+}
+
+func (ps *plServer) qSetRules(t *testing.T, out *vfOut, rs []*vfRule) {
+	for i, r := range rs {
+		r.ID = i
+	}
+	ps.qHandler(t, out, "/control/filtering/set_rules", map[string]any{"rules": vfRuleTexts(rs)}, true, true,
+		vfApp("QRules", vfRulesCoq(rs)), fmt.Sprintf("set_rules %q", vfRuleTexts(rs)), func() { ps.cfg.Custom = rs })
+}
+
+func (ps *plServer) qSetURL(t *testing.T, out *vfOut, i int, on bool) {
+	l := ps.cfg.Lists[i]
+	note := ""
+	if l.On == on {
+		note = " (no change)"
+	}
+	ps.qHandler(t, out, "/control/filtering/set_url", map[string]any{
+		"url": l.url, "whitelist": l.White,
+		"data": map[string]any{"name": l.Name, "url": l.url, "enabled": on},
+	}, true, l.On != on, vfApp("QSet", vfBool(l.White), vfN(uint64(i)), vfBool(on)),
+		fmt.Sprintf("set_url %s enabled=%v%s", l.Name, on, note), func() {
+			if !on {
+				if ps.wasOff == nil {
+					ps.wasOff = map[int]bool{}
+				}
+				ps.wasOff[i] = true
+			}
+			l.On = on
+		})
+}
+
+// qRemoveURL removes list i; wrongSide: the request names the other kind of
+// list, so nothing is found (the handler still queues a rebuild).
+func (ps *plServer) qRemoveURL(t *testing.T, out *vfOut, i int, wrongSide bool) {
+	l := ps.cfg.Lists[i]
+	white := l.White != wrongSide
+	note := ""
+	if wrongSide {
+		note = " (as the other kind: not found)"
+	}
+	ps.qHandler(t, out, "/control/filtering/remove_url", map[string]any{"url": l.url, "whitelist": white}, true, true,
+		vfApp("QRemove", vfBool(white), vfN(uint64(i))), fmt.Sprintf("remove_url %s%s", l.Name, note), func() {
+			if !wrongSide {
+				l.Gone, l.On = true, false
+			}
+		})
+}
+
+// qAddURL adds a new list (served by the same source).
+func (ps *plServer) qAddURL(t *testing.T, out *vfOut, l *plList) {
+	c := ps.cfg
+	i := len(c.Lists)
+	l.url = fmt.Sprintf("%s/l/%d-%s.txt", ps.srcURL, i, l.Name)
+	c.Lists = append(c.Lists, l)
+	ps.qHandler(t, out, "/control/filtering/add_url", map[string]any{"name": l.Name, "url": l.url, "whitelist": l.White}, true, true,
+		vfApp("QAdd", vfBool(l.White), vfApp("mkFList", vfN(uint64(i)), vfBool(true), vfRulesCoq(l.Rules))),
+		fmt.Sprintf("add_url %s (%s) %q", l.Name, map[bool]string{false: "block", true: "allow"}[l.White], vfRuleTexts(l.Rules)),
+		func() { l.On = true })
+}
+
+// qAddKnownURL asks to add a URL that is configured already: refused.
+func (ps *plServer) qAddKnownURL(t *testing.T, out *vfOut, i int, white bool) {
+	l := ps.cfg.Lists[i]
+	ps.qHandler(t, out, "/control/filtering/add_url", map[string]any{"name": "again", "url": l.url, "whitelist": white}, false, false,
+		vfApp("QAdd", vfBool(white), vfApp("mkFList", vfN(uint64(i)), vfBool(true), vfRulesCoq(l.Rules))),
+		fmt.Sprintf("add_url %s again (no change)", l.Name), nil)
+}
+
+// qTouch posts filtering/config with the values in force.
+func (ps *plServer) qTouch(t *testing.T, out *vfOut) {
+	ps.qHandler(t, out, "/control/filtering/config", map[string]any{"enabled": ps.cfg.Filtering, "interval": 0}, true, true,
+		"QTouch", "filtering/config (same values)", nil)
+}
+
+// qTake: the loop receives the queued task (first half of its first arm).
+func (ps *plServer) qTake(t *testing.T, out *vfOut) {
+	if ps.qBusy != nil {
+		t.Fatal("qTake while the loop is busy")
+	}
+	ps.qBusy = ps.s.dnsFilter.VerifTakePendingInit()
+	ps.qStep(vfApp("QOp", "HTake"), "loop: take")
+	ps.qObserve()
+	ps.qRow = 0
+	if ps.qBusy != nil {
+		out.Class("queue-loop-takes-task")
+	} else {
+		out.Class("queue-loop-finds-nothing")
+	}
+}
+
+// qInstall: the loop builds and installs the engines of the task it holds.
+func (ps *plServer) qInstall(t *testing.T, out *vfOut) {
+	if ps.qBusy != nil {
+		if ps.pending() > 0 {
+			out.Class("queue-loop-installs-superseded-task")
+		} else {
+			out.Class("queue-loop-installs-task")
+		}
+		if err := ps.s.dnsFilter.VerifInstall(ps.qBusy); err != nil {
+			t.Fatalf("engine initialisation: %v", err)
+		}
+		ps.qBusy = nil
+	}
+	ps.qStep(vfApp("QOp", "HInstall"), "loop: install")
+	ps.qObserve()
+	ps.qRow = 0
+}
+
+// qLoop: the real updatesLoop, until it has served the queue.
+func (ps *plServer) qLoop(t *testing.T, out *vfOut) {
+	if ps.qBusy != nil {
+		t.Fatal("qLoop while a task is held by hand")
+	}
+	had := ps.pending()
+	rounds := ps.s.dnsFilter.VerifRunLoopUntilDrained()
+	ps.qStep(vfApp("QOp", "HLoop"), "loop: real updatesLoop until the queue is served")
+	ps.qObserve()
+	ps.qRow = 0
+	out.Class("queue-real-loop")
+	if had > 0 {
+		out.Class("queue-real-loop-serves-task")
+	}
+	if rounds > 1 {
+		out.Class("queue-real-loop-stop-seen-before-task")
+	}
+}
+
+// qAsk runs a query: judged as a case of its own (emit: the model of the
+// pipeline and the monitors, for the rule set of the latest configuration)
+// when the queue is served, part of the history in any case.
+func (ps *plServer) qAsk(out *vfOut, q *plQuery, emit func(ps *plServer, q *plQuery, extra ...string), extra ...string) {
+	if ps.quiescent() {
+		cl := append(ps.listsClasses(), extra...)
+		cl = append(cl, "queue-ask-queue-served")
+		if ps.changes > 0 {
+			cl = append(cl, "queue-ask-after-changes-served")
+		}
+		emit(ps, q, cl...)
+	} else {
+		ps.last = ps.run(q)
+		out.Class("queue-ask-engines-behind")
+	}
+	ps.recordAsk(q, &ps.last)
+}
+
+// plAimedRules draws custom rules aimed at the previous ones: plain rules
+// are kept, a name that is not blocked gets a "||name^" rule, a name that a
+// kept rule blocks gets an "@@||name^" exception.
+func plAimedRules(r *vfRand, prev []*vfRule, names []string) (rs []*vfRule) {
+	for _, p := range prev {
+		if !p.IsHost && len(p.DTPerm)+len(p.DTRestr)+len(p.ClPerm)+len(p.ClRestr)+len(p.Denyallow) == 0 && !p.Badfilter && !p.Important && r.Chance(3, 4) {
+			cp := *p
+			rs = append(rs, &cp)
+		}
+	}
+	k := 1 + r.Intn(2)
+	for i := 0; i < k; i++ {
+		n := vfPick(r, names)
+		blocked := false
+		for _, p := range rs {
+			if plPlainBlock(p, n) {
+				blocked = true
+			}
+		}
+		rs = append(rs, &vfRule{Pattern: "||" + n + "^", White: blocked})
+	}
+	return rs
+}
+
+// plRunQueue runs a history on a queue-mode server and emits it as one
+// CQueue case; queries asked while the queue is served are cases of their
+// own as well.  At the end the loop is left alone and every name of the
+// universe is asked.
+func plRunQueue(t *testing.T, out *vfOut, r *vfRand, ps *plServer, steps int, names []string, genQ func(name string) *plQuery,
+	emit func(ps *plServer, q *plQuery, extra ...string)) {
+	c := ps.cfg
+	live := func() (idx []int) {
+		for i, l := range c.Lists {
+			if !l.Gone {
+				idx = append(idx, i)
+			}
+		}
+		return idx
+	}
+	added := 0
+	handler := func() {
+		ls := live()
+		switch k := r.Intn(20); {
+		case k < 8 || len(ls) == 0:
+			if r.Bool() {
+				ps.qSetRules(t, out, plAimedRules(r, c.Custom, names))
+			} else {
+				ps.qSetRules(t, out, vfGenRules(r, 0, 4, names, false))
+			}
+		case k < 13:
+			i := vfPick(r, ls)
+			ps.qSetURL(t, out, i, !c.Lists[i].On)
+		case k < 14:
+			i := vfPick(r, ls)
+			ps.qSetURL(t, out, i, c.Lists[i].On)
+		case k < 16:
+			if ps.qBusy != nil || len(ls) < 2 {
+				// the task the loop holds may name the list's file
+				ps.qTouch(t, out)
+				return
+			}
+			ps.qRemoveURL(t, out, vfPick(r, ls), r.Chance(1, 5))
+		case k < 18:
+			added++
+			white := r.Chance(1, 3)
+			n := vfPick(r, names)
+			ps.qAddURL(t, out, &plList{Name: fmt.Sprintf("added%d", added), White: white,
+				Rules: []*vfRule{{ID: 300 + added, Pattern: "||" + n + "^", White: white && r.Bool()}}})
+		case k < 19:
+			ps.qAddKnownURL(t, out, vfPick(r, ls), r.Bool())
+		default:
+			ps.qTouch(t, out)
+		}
+	}
+	for k := 0; k < steps; k++ {
+		switch x := r.Intn(20); {
+		case x < 8:
+			handler()
+		case x < 11:
+			if ps.qBusy == nil {
+				ps.qTake(t, out)
+			} else {
+				ps.qInstall(t, out)
+			}
+		case x < 13:
+			if ps.qBusy != nil {
+				ps.qInstall(t, out)
+			} else {
+				handler()
+			}
+		case x < 15:
+			if ps.qBusy == nil {
+				ps.qLoop(t, out)
+			} else {
+				handler()
+			}
+		default:
+			ps.qAsk(out, genQ(vfMixCase(r, vfPick(r, names))+"."), emit)
+		}
+	}
+	if ps.qBusy != nil {
+		ps.qInstall(t, out)
+	}
+	ps.qLoop(t, out)
+	for _, n := range names {
+		ps.qAsk(out, genQ(n+"."), emit, "queue-final-sweep")
+	}
+	out.Emit(ps.historyCase())
 }
